@@ -1,0 +1,63 @@
+//go:build verif
+
+package fsloop
+
+// Machine-checked contracts for /verif (gowp). Comment-only file: it adds no code.
+// Clause language: see /verif/DESIGN.md §2.2. Loops are numbered in source order.
+
+// C04 (the copy helpers report an error whenever the destination is not a complete copy).
+//
+// 1. The consumer hands every non-nil result of a directory or file callback to the lifecycle:
+//    in one pass of the consumer loop a callback event is followed at once by the error report
+//    unless the callback returned nil, and the reported value is the callback's result.
+// 2. The consumer's exit protocol. Producers enqueue before they leave the producer pool, and
+//    the close step is announced only after that pool has drained ((*Loop).Run$1 below), so once
+//    a consumer has seen the close step nothing more is enqueued: queues found empty AFTER the
+//    close step was read are empty for good. The consumer therefore leaves (when not killed)
+//    only on a pass that read the step first and probed both queues afterwards. The other
+//    order loses an item that is enqueued between the probe and the announcement.
+//@ type Consumer
+//@   field lifecycle immutable
+//@   field pool immutable
+//@   field loopData immutable
+//@ type Producer
+//@   field lifecycle immutable
+//@   field pool immutable
+//@   field loopData immutable
+//@ func (*Consumer).Loop [C04]
+//@   layers contract trace
+//@   requires consumer != nil && consumer.loopData != nil && consumer.lifecycle != nil && consumer.pool != nil
+//@   trace dynamic.LoopData.OnDir as ONDIR bind de
+//@   trace dynamic.LoopData.OnFile as ONFILE bind fe
+//@   trace (*Lifecycle).Error as REPORT
+//@   trace (*Lifecycle).IsKilled as KILLED bind isk
+//@   trace (*Lifecycle).Step as STEP bind stp
+//@   trace builtin.len as LEN
+//@   loop 1 trace_step de != nil : ^(?:(?:ONFILE|REPORT|KILLED|STEP|LEN) )*$|ONDIR REPORT
+//@   loop 1 trace_step fe != nil : ^(?:(?:ONDIR|REPORT|KILLED|STEP|LEN) )*$|ONFILE REPORT
+//@   at_call (*Lifecycle).Error requires len($1) == 1 && ($1[0] == de || $1[0] == fe) && $1[0] != nil
+//@   trace_ensures !isk : STEP LEN LEN $
+//@   ensures !isk ==> stp == 999
+
+// a listing error of the producer is reported
+//@ func (*Producer).Loop [C04]
+//@   layers contract trace
+//@   requires producer != nil && producer.loopData != nil && producer.lifecycle != nil && producer.pool != nil && producer.loopData.Filespace != nil
+//@   trace Filespace.ReadDir as READDIR bind rd
+//@   trace (*Lifecycle).Error as REPORT
+//@   trace_ensures rd.1 != nil : ^READDIR REPORT $
+//@   at_call (*Lifecycle).Error requires len($1) == 1 && $1[0] == rd.1 && $1[0] != nil
+//@ func (*Producer).processDir [C04]
+//@   layers contract trace
+//@   requires producer != nil && producer.loopData != nil && producer.lifecycle != nil && producer.pool != nil && producer.loopData.Filespace != nil
+//@   trace Filespace.ReadDir as READDIR bind rd
+//@   trace (*Lifecycle).Error as REPORT
+//@   trace_ensures bound(rd) && rd.1 != nil : READDIR REPORT $
+//@   at_call (*Lifecycle).Error requires len($1) == 1 && $1[0] == rd.1 && $1[0] != nil
+
+// the completion goroutine: the close step is announced after the producer pool has drained
+//@ func (*Loop).Run$1 [C04]
+//@   layers trace
+//@   trace (*Pool).Wait as DRAINED
+//@   trace (*Lifecycle).NextStep as CLOSESTEP
+//@   trace_ensures true : ^DRAINED CLOSESTEP
